@@ -19,6 +19,9 @@ OFFSET = 3 * (ROUND - 1)
 WT = f"{BASE}/{ID}"
 OUT = f"{BASE}/{ID}-out"
 ENV = dict(os.environ, CARGO_NET_OFFLINE="true")
+if os.environ.get("VERIF_EVAL_REPO"):
+    ENV["VERIF_REPO"] = os.environ["VERIF_EVAL_REPO"]
+REPO = os.environ.get("VERIF_EVAL_REPO", "/repo")  # tree the change is applied to (a scratch worktree when /repo is in use by a long run)
 CHECK_ROOT = os.environ.get("VERIF_EVAL_ROOT", "/verif")  # where ./check is run from (a frozen snapshot for first evaluations)
 
 
@@ -27,7 +30,45 @@ def run(cmd, cwd, timeout=1800):
     return p.returncode, p.stdout + p.stderr
 
 
+def recheck():
+    """--recheck: re-run the quick checks of the CURRENT /verif for the kept changes of this round
+    (confirmation in the scratch worktree is not repeated); the first evaluation is kept in meta.json"""
+    import glob
+    for d in sorted(glob.glob(f"/verif/seeded/{ID}-m*")):
+        meta = json.load(open(f"{d}/meta.json"))
+        if meta.get("round") != ROUND:
+            continue
+        rc, o = run("git status --porcelain", REPO)
+        if o.strip():
+            print("   repo is dirty, aborting")
+            sys.exit(2)
+        rc, o = run(f"git apply {d}/patch.diff", REPO)
+        if rc != 0:
+            print(meta["id"], "cannot apply:", o[:200])
+            continue
+        checks = {}
+        try:
+            for cid in [ID] + EXTRA:
+                rc, o = run(f"./check {cid} quick", CHECK_ROOT, timeout=3600)
+                sigs = re.findall(r"signature: (\S+)", o)
+                checks[cid] = {"exit": rc, "signatures": sigs[:8], "summary": (re.findall(rf"^{cid} quick:.*$", o, re.M) or [""])[0]}
+        finally:
+            run("git checkout -- .", REPO)
+        if "first_evaluation" not in meta:
+            meta["first_evaluation"] = {"evaluated_with": meta.get("evaluated_with"), "checks_quick": meta.get("checks_quick"), "caught_by": meta.get("caught_by")}
+        meta["evaluated_with"] = CHECK_ROOT
+        meta["checks_quick"] = checks
+        meta["caught_by"] = [c for c, v in checks.items() if v["exit"] == 1]
+        json.dump(meta, open(f"{d}/meta.json", "w"), indent=1)
+        print(meta["id"], "first:", meta["first_evaluation"]["caught_by"], "now:", meta["caught_by"], checks[ID]["signatures"][:3])
+        for f in os.listdir(f"{CHECK_ROOT}/replays"):
+            if f.endswith(".json"):
+                os.remove(f"{CHECK_ROOT}/replays/{f}")
+
+
 def main():
+    if "--recheck" in sys.argv:
+        return recheck()
     notes = open(f"{OUT}/notes.md").read() if os.path.exists(f"{OUT}/notes.md") else ""
     muts = sorted(f for f in os.listdir(OUT) if re.fullmatch(r"mut\d+\.diff", f))
     for mf in muts:
@@ -60,11 +101,11 @@ def main():
             print("   NOT KEPT", o_lib[-300:] if not lib_ok else "", o1[-300:] if not demo_fails_with else "", o2[-300:] if not demo_passes_without else "")
             continue
         # run the checks against /repo with the change applied
-        rc, o = run("git status --porcelain", "/repo")
+        rc, o = run("git status --porcelain", REPO)
         if o.strip():
             print("   /repo is dirty, aborting")
             sys.exit(2)
-        rc, o = run(f"git apply {OUT}/{mf}", "/repo")
+        rc, o = run(f"git apply {OUT}/{mf}", REPO)
         if rc != 0:
             print("   cannot apply to /repo:", o[:200])
             continue
@@ -76,7 +117,7 @@ def main():
                 checks[cid] = {"exit": rc, "signatures": sigs[:8], "summary": (re.findall(rf"^{cid} quick:.*$", o, re.M) or [""])[0]}
                 print(f"   ./check {cid} quick -> exit {rc}", sigs[:4])
         finally:
-            run("git checkout -- .", "/repo")
+            run("git checkout -- .", REPO)
         res["checks_quick"] = checks
         res["caught_by"] = [c for c, v in checks.items() if v["exit"] == 1]
         # notes section
